@@ -320,7 +320,7 @@ def pfile_tables(P, headers):
             if ok:
                 refs.append('(void *) %s__%s' % (lc, fn))
     L.append('static const int pbcv_api[][2] = {' + ', '.join(api) + '};')
-    L.append('static void *pbcv_api_refs[] = {' + ', '.join(refs + ['(void *) 0']) + '};')
+    L.append('void *volatile pbcv_api_refs[] = {' + ', '.join(refs + ['(void *) 0']) + '};')
     table = '\n'.join(L) + '\n'
     pkg = P.pkg[0]
     L = ['static int pbcv_called; static const void *pbcv_a_in, *pbcv_a_cl, *pbcv_a_cd, *pbcv_a_svc; static int pbcv_destroyed;']
